@@ -109,6 +109,10 @@ pub fn generate(prop: &str, seed: u64, tier: &str, programs: Option<usize>) -> C
     if prop == "C22" && std::env::var("E3_NO_RUSTC_LEG").is_err() {
         let mut sim = Sim::seeded(mix(&[seed, fnv_str("e3_ticksim/rustc_families")]));
         c.rustc_families = e3_core::pgen::rustc_families(&mut sim);
+        // E3_SKIP_KINDS also names families (`rustc_<family>`)
+        if let Ok(s) = std::env::var("E3_SKIP_KINDS") {
+            c.rustc_families.retain(|(f, _)| !s.split(',').any(|k| k == format!("rustc_{f}")));
+        }
     }
     for idx in 0..n {
         // everything is a pure function of (seed, property, index[, attempt])
